@@ -406,6 +406,111 @@ def mode_starved(p):
     return search(one, 30)
 
 
+def mode_fresh_iadd(p):
+    """accumulating block statistics into a freshly constructed container with += / +"""
+    from bob.learn.em import GMMStats
+
+    def one(seed):
+        rs = np.random.RandomState(seed)
+        C, D = rs.randint(1, 4), rs.randint(1, 4)
+        m = mk(C, D, seed)
+        x = rs.normal(size=(7, D)) + 3
+        whole = m.acc_stats(x)
+        for inplace in (True, False):
+            acc = GMMStats(C, D)
+            for blk in (x[:3], x[3:4], x[4:]):
+                if inplace:
+                    acc += m.acc_stats(blk)
+                else:
+                    acc = acc + m.acc_stats(blk)
+            for f in ("t", "n", "sum_px", "sum_pxx", "log_likelihood"):
+                if not close(getattr(acc, f), getattr(whole, f), 1e-8):
+                    return {"field": f, "observed": np.asarray(getattr(acc, f)).tolist(), "expected": np.asarray(getattr(whole, f)).tolist(),
+                            "what": "statistics accumulated with %s into an empty GMMStats differ from whole-set accumulation" % ("+=" if inplace else "+")}
+    return search(one, 20)
+
+
+def mode_dask_isolated(p):
+    """ML / MAP training on a Dask array when the M-step task runs on a serialised copy of the machine"""
+    import pickle
+    import dask.array as da
+    import bob.learn.em.gmm as g
+    from bob.learn.em import GMMMachine
+    trainer = p.get("trainer", "ml")
+
+    def one(seed):
+        rs = np.random.RandomState(seed)
+        X = np.vstack([rs.normal(size=(17, 2)), rs.normal(size=(23, 2)) + 4])
+        ubm = mk(2, 2, seed)
+
+        def fit(data, isolated):
+            m = GMMMachine(2, trainer=trainer, ubm=ubm if trainer == "map" else None, max_fitting_steps=4, convergence_threshold=1e-6,
+                           update_means=True, update_variances=True, update_weights=True)
+            if trainer == "ml":
+                m.means, m.variances = X[[0, 20]].copy(), np.ones((2, 2))
+            real = g.m_step
+            if isolated:
+                g.m_step = lambda stats, machine: pickle.loads(pickle.dumps(real(pickle.loads(pickle.dumps(stats)), pickle.loads(pickle.dumps(machine)))))
+            try:
+                m.fit(data)
+            finally:
+                g.m_step = real
+            return m
+        ref = fit(X, False)
+        for chunks in ((40, 2), (13, 2), (1, 2)):
+            for iso in (False, True):
+                got = fit(da.from_array(X, chunks=chunks), iso)
+                for f in ("weights", "means", "variances"):
+                    if not close(getattr(got, f), getattr(ref, f), 1e-8) or (trainer == "ml" and f == "variances" and trainer == "map"):
+                        if trainer == "map" and f == "variances":
+                            continue
+                        return {"input": {"chunks": list(chunks), "isolated_m_step": iso, "trainer": trainer}, "field": f,
+                                "observed": np.asarray(getattr(got, f)).tolist(), "expected": np.asarray(getattr(ref, f)).tolist(),
+                                "what": "GMM (%s) trained on a Dask array%s differs from in-memory training" % (trainer, " with an isolated M-step task" if iso else "")}
+                x5 = X[:5]
+                if not close(got.log_likelihood(x5), ref.log_likelihood(x5), 1e-8):
+                    return {"input": {"chunks": list(chunks), "isolated_m_step": iso}, "what": "the trained machine's likelihoods differ (stale cached log-weights / normalisers)"}
+    return search(one, 3)
+
+
+def mode_affine(p):
+    """per-feature x -> a x + b: one ML / MAP step and the likelihoods transform accordingly"""
+    from bob.learn.em import GMMMachine
+
+    def one(seed):
+        rs = np.random.RandomState(seed)
+        C, D, N = 2, rs.randint(1, 4), 25
+        x = rs.normal(size=(N, D)) * 1.5 + 3
+        a, b = rs.choice([-3.0, -0.5, 0.25, 2.0, 7.0], size=D), rs.normal(size=D) * 4
+        base = mk(C, D, seed)
+        for trainer in ("ml", "map"):
+            def run(xx, mu, var, thr):
+                ubm = GMMMachine(C)
+                ubm.variance_thresholds = thr
+                ubm.weights, ubm.means = base.weights.copy(), mu
+                ubm.variances = var
+                m = GMMMachine(C, trainer=trainer, ubm=ubm if trainer == "map" else None, update_means=True, update_variances=True, update_weights=True, max_fitting_steps=1)
+                if trainer == "ml":
+                    m.variance_thresholds = thr
+                    m.weights, m.means = base.weights.copy(), mu
+                    m.variances = var
+                m.fit(xx)
+                return ubm, m
+            u1, m1 = run(x, base.means.copy(), base.variances.copy(), 1e-12)
+            u2, m2 = run(a * x + b, a * base.means + b, a ** 2 * base.variances, 1e-12 * np.min(a ** 2))
+            if not close(u2.log_likelihood(a * x + b), u1.log_likelihood(x) - np.sum(np.log(np.abs(a))), 1e-8):
+                return {"what": "log-likelihoods do not shift by -sum(log|a|) under x -> a x + b"}
+            if trainer == "map":
+                checks = (("means", a * m1.means + b), ("weights", m1.weights))     # MAP variances: recorded finding KF-MAP-VAR
+            else:
+                checks = (("means", a * m1.means + b), ("variances", a ** 2 * m1.variances), ("weights", m1.weights))
+            for f, exp in checks:
+                if not close(getattr(m2, f), exp, 1e-7):
+                    return {"input": {"scales": a.tolist(), "shifts": b.tolist(), "trainer": trainer}, "field": f,
+                            "what": "%s-trained %s are not equivariant under per-feature affine rescaling" % (trainer.upper(), f)}
+    return search(one, 10)
+
+
 MODES = {k[5:]: v for k, v in list(globals().items()) if k.startswith("mode_")}
 
 if __name__ == "__main__":
